@@ -1,5 +1,5 @@
-(* C01 proofs, text layer: the reader undoes each writer on every XML-legal string; the only change a
-   legal string undergoes on its way is the end-of-line normalisation (CR LF / CR -> LF). *)
+(* C01 proofs, text layer: the reader undoes each writer on every XML-legal string: a legal string reaches
+   the reader unchanged (a CR travels as the character reference &#13;). *)
 From Coq Require Import String.
 From Coq Require Import List NArith Bool Lia ZifyBool.
 From Coq Require Import Decimal DecimalN DecimalPos.
@@ -149,134 +149,29 @@ Lemma unescape_lx_attr s : xml_legal s = true -> xml_unescape (lx_attr_escape s)
 Proof. apply unesc_flat_map, unesc_lx_attr_char. Qed.
 
 (* ---------- line ends ---------- *)
-Definition plain (c : N) : bool := negb (c =? 10) && negb (c =? 13) && negb (is_brk c).
-Definition nocrbrk (c : N) : bool := negb (c =? 13) && negb (is_brk c).
+Definition nocr (c : N) : bool := negb (c =? 13).
 
-Lemma sj_plain_word w : forall cr r, w <> [] -> forallb plain w = true ->
-  splitjoin_from cr (w ++ r) = w ++ splitjoin_from false r.
-Proof.
-  induction w as [|c w IH]; intros cr r NE H; [congruence|].
-  simpl in H. apply andb_true_iff in H as [Hc H].
-  unfold plain in Hc. apply andb_true_iff in Hc as [Hc Hc3]. apply andb_true_iff in Hc as [Hc1 Hc2].
-  simpl. destruct (c =? 13); [discriminate|]. destruct (c =? 10); [discriminate|].
-  destruct (is_brk c); [discriminate|]. f_equal.
-  destruct w as [|c' w']; [reflexivity|]. apply IH; [discriminate|exact H].
-Qed.
-
-Lemma sj_id t : forall cr, forallb nocrbrk t = true -> (cr = true -> match t with 10 :: _ => False | _ => True end) ->
+Lemma sj_id t : forall cr, forallb nocr t = true -> (cr = true -> match t with 10 :: _ => False | _ => True end) ->
   splitjoin_from cr t = t.
 Proof.
   induction t as [|c t IH]; intros cr H Hcr; [reflexivity|].
-  simpl in H. apply andb_true_iff in H as [Hc H]. unfold nocrbrk in Hc. apply andb_true_iff in Hc as [H1 H2].
+  simpl in H. apply andb_true_iff in H as [H1 H]. unfold nocr in H1.
   simpl. destruct (c =? 13) eqn:E13; [discriminate|].
   destruct (N.eqb_spec c 10) as [->|N10].
   - destruct cr; [exfalso; apply Hcr; reflexivity|]. f_equal. apply IH; [exact H|discriminate].
-  - destruct (is_brk c); [discriminate|]. f_equal. apply IH; [exact H|discriminate].
+  - f_equal. apply IH; [exact H|discriminate].
 Qed.
 
-Lemma sj_id_false t : forallb nocrbrk t = true -> splitjoin t = t.
+Lemma sj_id_false t : forallb nocr t = true -> splitjoin t = t.
 Proof. intro H. apply sj_id; [exact H|discriminate]. Qed.
 
-Lemma sj_out_nocrbrk s : forall cr, forallb nocrbrk (splitjoin_from cr s) = true.
-Proof.
-  induction s as [|c s IH]; intro cr; [reflexivity|]. simpl.
-  destruct (c =? 13) eqn:E13; [simpl; apply IH|].
-  destruct (c =? 10) eqn:E10.
-  - destruct cr; [apply IH| simpl; apply IH].
-  - destruct (is_brk c) eqn:B; simpl; [apply IH|].
-    unfold nocrbrk at 1. rewrite E13, B. simpl. apply IH.
-Qed.
+Lemma is_digit_nocr x : is_digit x = true -> nocr x = true.
+Proof. unfold is_digit, nocr. lia. Qed.
 
-Lemma eol_norm_idem s : eol_norm (eol_norm s) = eol_norm s.
-Proof. unfold eol_norm. apply sj_id_false, sj_out_nocrbrk. Qed.
-
-Lemma legal_not_brk c : xml_legal_char c = true -> is_brk c = false.
-Proof. unfold xml_legal_char, is_brk. lia. Qed.
-
-Lemma sj_legal s : forall cr, xml_legal s = true -> xml_legal (splitjoin_from cr s) = true.
-Proof.
-  induction s as [|c s IH]; intros cr L; [reflexivity|]. simpl in L. apply andb_true_iff in L as [L1 L2].
-  simpl. destruct (c =? 13); [simpl; apply IH, L2|].
-  destruct (c =? 10); [destruct cr; [apply IH, L2 | simpl; apply IH, L2]|].
-  destruct (is_brk c); simpl; [apply IH, L2|]. rewrite L1. apply IH, L2.
-Qed.
-
-Lemma eol_norm_legal s : xml_legal s = true -> xml_legal (eol_norm s) = true.
-Proof. apply sj_legal. Qed.
-
-Lemma eol_norm_no_cr_out s : no_cr (eol_norm s) = true.
-Proof.
-  unfold eol_norm, splitjoin. generalize (sj_out_nocrbrk s false).
-  apply forallb_impl. intros x. unfold nocrbrk. intro H. apply andb_true_iff in H as [H _]. exact H.
-Qed.
-
-Lemma eol_norm_id s : xml_legal s = true -> no_cr s = true -> eol_norm s = s.
-Proof.
-  intros L C. apply sj_id_false.
-  induction s as [|c s IH]; [reflexivity|]. simpl in *.
-  apply andb_true_iff in L as [L1 L2]. apply andb_true_iff in C as [C1 C2].
-  rewrite IH by assumption. unfold nocrbrk. rewrite C1, (legal_not_brk _ L1). reflexivity.
-Qed.
-
-Lemma eol_norm_fix_iff s : xml_legal s = true -> (eol_norm s = s <-> no_cr s = true).
-Proof.
-  intro L. split; intro H; [rewrite <- H; apply eol_norm_no_cr_out | apply eol_norm_id; assumption].
-Qed.
-
-(* the escaped words *)
-Lemma char_ref_plain c : forallb plain (char_ref c) = true.
+Lemma char_ref_nocr c : forallb nocr (char_ref c) = true.
 Proof.
   unfold char_ref. simpl. rewrite forallb_app. simpl. rewrite andb_true_r.
-  apply (forallb_impl is_digit); [|apply dec_digits].
-  intros x Hx. unfold is_digit in Hx. unfold plain, is_brk. lia.
-Qed.
-
-Lemma et_char_plain c : plain c = true -> forallb plain (et_escape_char c) = true /\ et_escape_char c <> [].
-Proof.
-  intro P. unfold et_escape_char.
-  destruct (c =? 38); [split; [reflexivity|discriminate]|].
-  destruct (c =? 60); [split; [reflexivity|discriminate]|].
-  destruct (c =? 62); [split; [reflexivity|discriminate]|].
-  destruct (127 <? c); [split; [apply char_ref_plain|discriminate]|].
-  simpl. rewrite P. split; [reflexivity|discriminate].
-Qed.
-
-Lemma et_escape_small c : c <? 32 = true -> et_escape_char c = [c].
-Proof. intro H. unfold et_escape_char.
-  destruct (N.eqb_spec c 38); [lia|]. destruct (N.eqb_spec c 60); [lia|]. destruct (N.eqb_spec c 62); [lia|].
-  destruct (N.ltb_spec 127 c); [lia|]. reflexivity. Qed.
-
-(* splitlines/join commutes with the ElementTree escaping *)
-Lemma sj_et_commute s : forall cr, splitjoin_from cr (et_escape s) = et_escape (splitjoin_from cr s).
-Proof.
-  induction s as [|c s IH]; intro cr; [reflexivity|].
-  unfold et_escape in *. cbn [flat_map].
-  destruct (N.eqb_spec c 13) as [->|N13].
-  { change (et_escape_char 13) with [13]. cbn [Datatypes.app splitjoin_from]. change (13 =? 13) with true. cbn iota.
-    cbn [flat_map]. change (et_escape_char 10) with [10]. cbn [Datatypes.app]. f_equal. apply IH. }
-  destruct (N.eqb_spec c 10) as [->|N10].
-  { change (et_escape_char 10) with [10]. cbn [Datatypes.app splitjoin_from]. change (10 =? 13) with false.
-    change (10 =? 10) with true. cbn iota. destruct cr; [apply IH|].
-    cbn [flat_map]. change (et_escape_char 10) with [10]. cbn [Datatypes.app]. f_equal. apply IH. }
-  destruct (is_brk c) eqn:B.
-  { assert (Hs : c <? 32 = true) by (unfold is_brk in B; lia).
-    rewrite (et_escape_small _ Hs). cbn [Datatypes.app splitjoin_from].
-    destruct (N.eqb_spec c 13); [contradiction|]. destruct (N.eqb_spec c 10); [contradiction|]. rewrite B.
-    cbn [flat_map]. change (et_escape_char 10) with [10]. cbn [Datatypes.app]. f_equal. apply IH. }
-  assert (P : plain c = true).
-  { unfold plain. rewrite B. destruct (N.eqb_spec c 10); [contradiction|]. destruct (N.eqb_spec c 13); [contradiction|]. reflexivity. }
-  destruct (et_char_plain c P) as [W NE].
-  rewrite sj_plain_word by assumption.
-  cbn [splitjoin_from].
-  destruct (N.eqb_spec c 13); [contradiction|]. destruct (N.eqb_spec c 10); [contradiction|]. rewrite B.
-  cbn [flat_map]. f_equal. apply IH.
-Qed.
-
-(* lxml output never contains a raw CR / VT / FF / FS / GS / RS when the input is legal *)
-Lemma char_ref_nocrbrk c : forallb nocrbrk (char_ref c) = true.
-Proof.
-  generalize (char_ref_plain c). apply forallb_impl. intros x. unfold plain, nocrbrk.
-  intro H. apply andb_true_iff in H as [H H3]. apply andb_true_iff in H as [H1 H2]. rewrite H2, H3. reflexivity.
+  apply (forallb_impl is_digit); [apply is_digit_nocr|apply dec_digits].
 Qed.
 
 Lemma flat_map_forallb {A B} (f : A -> list B) (p : A -> bool) (q : B -> bool) l :
@@ -286,78 +181,97 @@ Proof.
   rewrite forallb_app, (H _ H1), (IH H2). reflexivity.
 Qed.
 
-Lemma lx_escape_nocrbrk s : xml_legal s = true -> forallb nocrbrk (lx_escape s) = true.
+(* lxml output never contains a raw CR *)
+Lemma lx_escape_nocr s : forallb nocr (lx_escape s) = true.
 Proof.
-  apply flat_map_forallb. intros c L. unfold lx_escape_char.
+  apply (flat_map_forallb _ (fun _ => true)); [|apply forallb_forall; reflexivity]. intros c _. unfold lx_escape_char.
   destruct (c =? 38); [reflexivity|]. destruct (c =? 60); [reflexivity|]. destruct (c =? 62); [reflexivity|].
-  destruct (c =? 13) eqn:E; [apply char_ref_nocrbrk|].
-  destruct (127 <? c); [apply char_ref_nocrbrk|].
-  simpl. unfold nocrbrk. rewrite E, (legal_not_brk _ L). reflexivity.
+  destruct (c =? 13) eqn:E; [apply char_ref_nocr|].
+  destruct (127 <? c); [apply char_ref_nocr|].
+  simpl. unfold nocr. rewrite E. reflexivity.
 Qed.
 
-Definition attr_clean (c : N) : bool := nocrbrk c && negb (c =? 9) && negb (c =? 10).
+(* replacing the raw CRs of the ElementTree text gives exactly what lxml would have written *)
+Lemma cr_ref_id t : forallb nocr t = true -> cr_ref t = t.
+Proof.
+  induction t as [|c t IH]; [reflexivity|]. simpl. intro H. apply andb_true_iff in H as [H1 H2].
+  unfold nocr in H1. destruct (c =? 13); [discriminate|]. simpl. f_equal. apply IH, H2.
+Qed.
+Lemma cr_ref_app a b : cr_ref (a ++ b) = cr_ref a ++ cr_ref b.
+Proof. unfold cr_ref. apply flat_map_app. Qed.
+
+Lemma cr_ref_et_char c : cr_ref (et_escape_char c) = lx_escape_char c.
+Proof.
+  unfold et_escape_char, lx_escape_char.
+  destruct (c =? 38); [reflexivity|]. destruct (c =? 60); [reflexivity|]. destruct (c =? 62); [reflexivity|].
+  destruct (N.eqb_spec c 13) as [->|N13]; [reflexivity|].
+  destruct (127 <? c); [apply cr_ref_id, char_ref_nocr|].
+  simpl. destruct (N.eqb_spec c 13); [contradiction|reflexivity].
+Qed.
+
+Lemma cr_ref_et s : cr_ref (et_escape s) = lx_escape s.
+Proof.
+  unfold et_escape, lx_escape. induction s as [|c s IH]; [reflexivity|]. simpl.
+  rewrite cr_ref_app, cr_ref_et_char, IH. reflexivity.
+Qed.
+
+Definition attr_clean (c : N) : bool := nocr c && negb (c =? 9) && negb (c =? 10).
 
 Lemma char_ref_attr_clean c : forallb attr_clean (char_ref c) = true.
 Proof.
   unfold char_ref. simpl. rewrite forallb_app. simpl. rewrite andb_true_r.
   apply (forallb_impl is_digit); [|apply dec_digits].
-  intros x Hx. unfold is_digit in Hx. unfold attr_clean, nocrbrk, is_brk. lia.
+  intros x Hx. unfold is_digit in Hx. unfold attr_clean, nocr. lia.
 Qed.
 
-Lemma lx_attr_escape_clean s : xml_legal s = true -> forallb attr_clean (lx_attr_escape s) = true.
+Lemma lx_attr_escape_clean s : forallb attr_clean (lx_attr_escape s) = true.
 Proof.
-  apply flat_map_forallb. intros c L. unfold lx_attr_escape_char.
+  apply (flat_map_forallb _ (fun _ => true)); [|apply forallb_forall; reflexivity]. intros c _. unfold lx_attr_escape_char.
   destruct (c =? 38); [reflexivity|]. destruct (c =? 60); [reflexivity|]. destruct (c =? 62); [reflexivity|].
   destruct (c =? 34); [reflexivity|].
   destruct ((c =? 9) || (c =? 10) || (c =? 13)) eqn:E; [apply char_ref_attr_clean|].
   destruct (127 <? c); [apply char_ref_attr_clean|].
-  simpl. unfold attr_clean, nocrbrk. rewrite (legal_not_brk _ L). rewrite andb_true_r. lia.
+  simpl. unfold attr_clean, nocr. rewrite andb_true_r. lia.
 Qed.
 
 Lemma attr_ws_id t : forallb attr_clean t = true -> attr_ws t = t.
 Proof.
   induction t as [|c t IH]; [reflexivity|]. simpl. intro H. apply andb_true_iff in H as [H1 H2].
   rewrite IH by exact H2. f_equal.
-  unfold attr_clean, nocrbrk in H1.
+  unfold attr_clean, nocr in H1.
   destruct ((c =? 9) || (c =? 10) || (c =? 13)) eqn:E; [lia|reflexivity].
 Qed.
 
 (* ---------- the journeys ---------- *)
-Theorem text_in_legal s : xml_legal s = true -> text_in s = Some (eol_norm s).
+Theorem text_in_legal s : xml_legal s = true -> text_in s = Some s.
 Proof.
-  intro L. unfold text_in, splitjoin. rewrite sj_et_commute. apply unescape_et. apply sj_legal, L.
+  intro L. unfold text_in, eol_norm. rewrite cr_ref_et, sj_id_false by apply lx_escape_nocr.
+  apply unescape_lx, L.
 Qed.
 
 Theorem text_out_legal s : xml_legal s = true -> text_out s = Some s.
 Proof.
-  intro L. unfold text_out, eol_norm. rewrite sj_id_false by (apply lx_escape_nocrbrk, L).
+  intro L. unfold text_out, eol_norm. rewrite sj_id_false by apply lx_escape_nocr.
   apply unescape_lx, L.
 Qed.
 
 Theorem attr_out_legal s : xml_legal s = true -> attr_out s = Some s.
 Proof.
   intro L. unfold attr_out, eol_norm.
-  pose proof (lx_attr_escape_clean s L) as C.
+  pose proof (lx_attr_escape_clean s) as C.
   rewrite sj_id_false.
   - rewrite attr_ws_id by exact C. apply unescape_lx_attr, L.
   - revert C. apply forallb_impl. intros x. unfold attr_clean. intro H.
     apply andb_true_iff in H as [H _]. apply andb_true_iff in H as [H _]. exact H.
 Qed.
 
-Theorem text_trip_legal s : xml_legal s = true -> text_trip s = Some (eol_norm s).
-Proof.
-  intro L. unfold text_trip. rewrite text_in_legal by exact L. apply text_out_legal, eol_norm_legal, L.
-Qed.
+Theorem text_trip_legal s : xml_legal s = true -> text_trip s = Some s.
+Proof. intro L. unfold text_trip. rewrite text_in_legal by exact L. apply text_out_legal, L. Qed.
 
-Theorem text_trip_no_cr s : xml_legal s = true -> no_cr s = true -> text_trip s = Some s.
-Proof. intros L C. rewrite text_trip_legal by exact L. f_equal. apply eol_norm_id; assumption. Qed.
+(* a CR is carried as a reference on both legs *)
+Theorem text_trip_cr_example : text_trip [97; 13; 10; 98; 13] = Some [97; 13; 10; 98; 13].
+Proof. reflexivity. Qed.
 
-Theorem text_trip_exact s : xml_legal s = true -> (text_trip s = Some s <-> no_cr s = true).
-Proof.
-  intro L. rewrite text_trip_legal by exact L. split.
-  - intro H. injection H as H. apply eol_norm_fix_iff; assumption.
-  - intro C. f_equal. apply eol_norm_id; assumption.
-Qed.
-
-Theorem text_trip_cr_refuted : exists s, xml_legal s = true /\ text_trip s <> Some s.
-Proof. exists [97; 13; 98]. split; [reflexivity|]. vm_compute. discriminate. Qed.
+(* text that is not XML is refused (the writer raises), e.g. a vertical tab *)
+Theorem text_in_illegal_example : text_in [97; 11; 98] = None /\ text_in [0] = None.
+Proof. split; reflexivity. Qed.
